@@ -29,25 +29,29 @@ class Flow:
 
 
 def honest_flow(ctx, pw=b"correct horse", cred=b"alice", context=None, idu=None, ids=None, ksf="~",
-                file_for_login=True, stop_on_error=True, rejections=0, count=False):
-    """runs the nine API steps through serialised bytes; returns a Flow (fields are None after a failure)"""
-    L = ctx.L
+                file_for_login=True, stop_on_error=True, rejections=0, count=False, **kw):
+    """runs the nine API steps through serialised bytes; returns a Flow (fields are None after a failure).
+    Optional overrides for the login phase: login_pw, login_cred, srv_context, cli_context, srv_idu, srv_ids,
+    cli_idu, cli_ids, login_ksf, setup (reuse), login_setup (serve the login under another setup),
+    file (serve this file).  The markers "@cpk" / "@spk" as an identity stand for the explicit spelling of the
+    client's / server's static public key (available after registration)."""
     was = ctx.counting
     ctx.counting = count
     try:
-        return _honest_flow(ctx, pw, cred, context, idu, ids, ksf, file_for_login, stop_on_error, rejections)
+        return _honest_flow(ctx, pw, cred, context, idu, ids, ksf, file_for_login, stop_on_error, rejections, kw)
     finally:
         ctx.counting = was
 
 
-def _honest_flow(ctx, pw, cred, context, idu, ids, ksf, file_for_login, stop_on_error, rejections):
+def _honest_flow(ctx, pw, cred, context, idu, ids, ksf, file_for_login, stop_on_error, rejections, kw):
     L = ctx.L
     f = Flow()
     f.ok = False
     f.failed_at = None
+    f.error = None
     names = ["setup", "client_reg", "reg_request", "reg_response", "upload", "export_reg", "spk_reg", "file",
              "client_login", "ke1", "server_login", "ke2", "ke3", "session_client", "export_login", "spk_login",
-             "session_server"]
+             "session_server", "ksflog_reg", "ksflog_login"]
     for n in names:
         setattr(f, n, None)
 
@@ -59,36 +63,75 @@ def _honest_flow(ctx, pw, cred, context, idu, ids, ksf, file_for_login, stop_on_
                 raise Stop
             return False
         return True
-    r = ctx.call("setup_new", ctx.tape(2 * L.Nsk + L.Nh + 16))
-    if not step("setup_new", r): return f
-    f.setup = r.b(0)
+
+    def spell(v):
+        if v == "@cpk":
+            return f.upload[:L.Npk]
+        if v == "@spk":
+            return f.spk_reg if f.spk_reg is not None else f.reg_response[L.Noe:]
+        return v
+    if kw.get("setup") is not None:
+        f.setup = kw["setup"]
+    else:
+        r = ctx.call("setup_new", ctx.tape(2 * L.Nsk + L.Nh + 16))
+        if not step("setup_new", r): return f
+        f.setup = r.b(0)
     r = ctx.call("reg_start", ctx.btape(64, rejections), pw)
     if not step("reg_start", r): return f
     f.client_reg, f.reg_request = r.b(0), r.b(1)
     r = ctx.call("srv_reg_start", f.setup, f.reg_request, cred)
     if not step("srv_reg_start", r): return f
     f.reg_response = r.b(0)
-    r = ctx.call("reg_finish", f.client_reg, ctx.tape(48), pw, f.reg_response, idu, ids, ksf)
+    r = ctx.call("reg_finish", f.client_reg, ctx.tape(48), pw, f.reg_response, spell(idu), spell(ids), ksf)
     if not step("reg_finish", r): return f
-    f.upload, f.export_reg, f.spk_reg = r.b(0), r.b(1), r.b(2)
+    f.upload, f.export_reg, f.spk_reg, f.ksflog_reg = r.b(0), r.b(1), r.b(2), r.outs[4]
     r = ctx.call("srv_reg_finish", f.upload)
     if not step("srv_reg_finish", r): return f
     f.file = r.b(0)
+    if kw.get("registration_only"):
+        f.ok = True
+        return f
+    return login(ctx, f, kw.get("login_pw", pw), kw.get("login_cred", cred),
+                 kw.get("srv_context", context), kw.get("cli_context", context),
+                 spell(kw.get("srv_idu", idu)), spell(kw.get("srv_ids", ids)),
+                 spell(kw.get("cli_idu", idu)), spell(kw.get("cli_ids", ids)),
+                 kw.get("login_ksf", ksf), kw.get("login_setup", f.setup),
+                 (kw["file"] if "file" in kw else (f.file if file_for_login else None)), step, rejections)
+
+
+def login(ctx, f, pw, cred, srv_context, cli_context, srv_idu, srv_ids, cli_idu, cli_ids, ksf, setup, file, step=None,
+          rejections=0):
+    """one login against the registration held in f (overwrites the login fields of f)"""
+    L = ctx.L
+    if step is None:
+        def step(name, r):
+            if not r.ok:
+                f.failed_at, f.error = name, r.err
+                return False
+            return True
+    f.ok = False
+    f.failed_at = f.error = None
     r = ctx.call("login_start", ctx.btape(L.Nsk + 64, rejections), pw)
     if not step("login_start", r): return f
     f.client_login, f.ke1 = r.b(0), r.b(1)
-    r = ctx.call("srv_login_start", ctx.tape(L.Nh + 64 + L.Nsk + 16), f.setup, f.file if file_for_login else None,
-                 f.ke1, cred, context, idu, ids)
+    r = ctx.call("srv_login_start", ctx.tape(L.Nh + 64 + L.Nsk + 16), setup, file, f.ke1, cred, srv_context, srv_idu, srv_ids)
     if not step("srv_login_start", r): return f
     f.server_login, f.ke2 = r.b(0), r.b(1)
-    r = ctx.call("login_finish", f.client_login, pw, f.ke2, context, idu, ids, ksf)
+    r = ctx.call("login_finish", f.client_login, pw, f.ke2, cli_context, cli_idu, cli_ids, ksf)
     if not step("login_finish", r): return f
-    f.ke3, f.session_client, f.export_login, f.spk_login = r.b(0), r.b(1), r.b(2), r.b(3)
+    f.ke3, f.session_client, f.export_login, f.spk_login, f.ksflog_login = r.b(0), r.b(1), r.b(2), r.b(3), r.outs[4]
     r = ctx.call("srv_login_finish", f.server_login, f.ke3)
     if not step("srv_login_finish", r): return f
     f.session_server = r.b(0)
     f.ok = True
     return f
+
+
+def flow_tape(ctx, rejections=0):
+    """tape for the in-memory `flow` op (draw order of PROTOCOL.md)"""
+    L = ctx.L
+    return (ctx.tape(2 * L.Nsk + L.Nh) + ctx.blind_draw(rejections) + ctx.tape(32) + ctx.blind_draw(rejections)
+            + ctx.tape(L.Nsk + 32) + ctx.tape(32 + L.Nsk + 32) + ctx.tape(16))
 
 
 def encodings(f):
